@@ -59,7 +59,7 @@ PROPS['C13'] = dict(
           'error clauses; complete stratum: every pentagon parent of every res x every child res (whole array up to depth 5/7, first-level sub-block boundaries beyond). '
           'non-trivial = child res finer than parent res (or an in-range error argument); distinct by the case tuple'),
     quick=dict(cases={'fast': 400_000, 'asan': 30_000}, enum={'fast': 4}),
-    thorough=dict(cases={'fast': 20_000_000, 'asan': 1_000_000}, enum={'fast': 8}),
+    thorough=dict(cases={'fast': 10000000, 'asan': 500000}, enum={'fast': 8}),
     strata=dict(quick=['12 pentagons x 16 res x every child res: whole array (depth<=5) + sub-block boundaries'], thorough=['same with depth<=7']),
     level_text=('childPosToCell / cellToChildPos compared with the reference enumeration order on digit strings (lexicographic with the deleted digit-1 branch under a pentagon chain), '
                 'round trip both ways, position-by-position agreement with cellToChildren, and the three documented error codes'),
@@ -320,7 +320,7 @@ PROPS['C18'] = dict(
           '0-3 byte mutations, single-function templates over eight valid registers, random bytes — executed by T in {2,3,4,8,16} threads released from a barrier '
           '(two repetitions each) and once sequentially; non-trivial = at least one API call executed on at least two threads; distinct by (program bytes, T, order)'),
     quick=dict(cases={'fast': 240_000, 'tsan': 40_000}, workers={'fast': 8, 'tsan': 8}, enum={'fast': 2, 'tsan': 2}),
-    thorough=dict(cases={'fast': 6_000_000, 'tsan': 1_000_000}, workers={'fast': 8, 'tsan': 8}, enum={'fast': 2, 'tsan': 2}),
+    thorough=dict(cases={'fast': 4_000_000, 'tsan': 700_000}, workers={'fast': 8, 'tsan': 8}, enum={'fast': 2, 'tsan': 2}),
     strata=dict(quick=['the first 1500 programs of the C12 seed corpus, T=4, both variants'], thorough=['every program of the C12 seed corpus, T=4, both variants']),
     level_text=('generated multi-threaded API programs with three oracles: (1) every thread observes byte-for-byte what the sequential execution observes (digest of all return '
                 'codes, scalar outputs and output buffers); (2) the writable segments (.data/.bss/GOT) of the library, linked as a shared object bound at load, are '
